@@ -596,3 +596,22 @@ Proof.
       intros b0 [z Hz]. discriminate.
     + apply erase_hb_build. exact F.
 Qed.
+
+(* the two stages composed, as prepareRunPlan does after generatePlan *)
+Theorem gc_then_hib : forall (p : list action) (d : Z), pre_ok p ->
+  exists p', collect_garbage p = Some p' /\
+    lifecycle_ok (insert_hb p' d) /\ nothing_hibernated (run init (insert_hb p' d)) /\
+    erase_deletes (erase_hb (insert_hb p' d)) = p.
+Proof.
+  intros p d H. destruct (gc_sound p H) as [p' [E [L R]]]. exists p'. split; [exact E|].
+  assert (F : Forall hb_kind p').
+  { apply Forall_forall. intros a Ha.
+    assert (K : In a p \/ kind a = KDelete).
+    { destruct (is_kind KDelete a) eqn:Kd.
+      - right. apply kind_eqb_eq. exact Kd.
+      - left. rewrite <- R. apply filter_In. split; [exact Ha|]. rewrite Kd. reflexivity. }
+    destruct K as [K|K].
+    - destruct H as [_ G]. rewrite Forall_forall in G. destruct (G a K) as [[Gk|[Gk|[Gk|Gk]]] _]; split; rewrite Gk; discriminate.
+    - split; rewrite K; discriminate. }
+  destruct (hib_sound p' d L F) as [L' [N' E']]. split; [exact L'|]. split; [exact N'|]. rewrite E'. exact R.
+Qed.
